@@ -10,10 +10,82 @@ def repo_commits():
 
 # id -> (engine, level category, level text, level note, technique, design ref)
 CHECKS = {
- "C02": ("E1-seq", "exploration",
+ "C01": ("E2+E3", "exploration",
+   "Bounded systematic schedule exploration: generated small concurrent programs run on real threads under a serialising scheduler that owns every interleaving decision (all 0/1-preemption schedules, budgeted coarse and fine 2-preemption schedules, random sparse tapes); the recorded history is decided by a per-key Wing-Gong linearizability search. Held on everything explored; deep interleavings are sampled.",
+   "Trusted: interleavings at the granularity of flurry's instrumented atomics/locks (seize and parking_lot run atomically between them); sequentially consistent executions only; programs of 2-3 threads x 1-3 ops.",
+   "controlled-schedule concurrency testing (CHESS-style bounded preemption + proptest programs) with a linearizability oracle", "DESIGN.md §4 C01"),
+ "C02": ("E1", "exploration",
    "Model-based property testing: generated operation sequences over every public operation, all hashers/capacities/facades, compared step by step with a BTreeMap model; held on everything generated, no exhaustiveness claimed.",
    "Trusted: the reference model and the op interpreter; flurry built with debug assertions; sequences <= 200 ops, universes <= 200 keys.",
    "stateful model-based property testing (proptest) against a BTreeMap reference", "DESIGN.md §4 C02"),
+ "C03": ("E1+E2+E4", "exploration",
+   "Generated bulk constructions, sequential histories and scheduled concurrent programs with three memory oracles: canaries re-read before each guard is released, a poisoning quarantine allocator that reports writes to freed blocks, and 'retired implies unreachable' evaluated at every retirement; plus isolated readers at every writer step.",
+   "A read of freed memory is caught through poison (dead canary, wild pointer, garbage discriminant), not with certainty; ASan fuzz targets in the thorough tier close part of that gap. Trusted base as C01.",
+   "property-based testing with memory-safety oracles (canary, quarantine allocator, reachability at retire) under generated inputs and controlled schedules", "DESIGN.md §4 C03"),
+ "C04": ("E1+E2", "exploration",
+   "Drop ledger over every key/value instance ever created (incl. clones made by the map) across generated sequential histories and scheduled concurrent executions: exactly one drop each by map teardown, none while stored, none while a guard that predates the displacement is alive.",
+   "Only K/V instances are ledgered; guards created inside pin() are not visible to the live-observer rule (fewer guards judged, never more).",
+   "model-based property testing with an exactly-once drop ledger", "DESIGN.md §4 C04"),
+ "C05": ("E1+E2+inspector", "exploration",
+   "Every quiescent point of generated sequential histories and the join point of explored concurrent executions is checked: iteration = lookups = len, and the inspector's structural well-formedness predicate.",
+   "The inspector reads raw pointers while nothing is in flight. Trusted base as C01 for the concurrent part.",
+   "invariant checking at quiescent points of generated histories (proptest + controlled schedules)", "DESIGN.md §4 C05"),
+ "C06": ("E1+inspector", "exploration",
+   "Collision-only generators with adversarial insertion/removal orders; after every step red-black/list consistency of every tree bin and a comparison-count bound for lookups measured by the key type.",
+   "Comparison counts are those of the instrumented key type; bound ceil(4*log2(n+1))+2.",
+   "property-based testing with structural invariants and a counted-comparisons oracle", "DESIGN.md §4 C06"),
+ "C07": ("E1+E2+probes", "exploration",
+   "Weak-consistency predicate over (a) single-threaded scripts interleaving next() with whole resizes, (b) iterating threads among writers under the scheduler, (c) a complete isolated iteration at every writer yield point; search includes a 'drain' program family and coarse two-preemption enumeration (finds the repaired null-first defect by search).",
+   "Presence intervals are judged permissively from unique value ids and operation intervals. Trusted base as C01.",
+   "controlled-schedule testing with isolated-reader probes and an interval-based weak-consistency oracle", "DESIGN.md §4 C07"),
+ "C08": ("E2+E3", "exploration",
+   "As C01 with compute-heavy programs: closure call count, read-modify-write linearizability against the value the closure saw, and a counter-sum oracle.",
+   "As C01.",
+   "controlled-schedule testing with an RMW linearizability oracle", "DESIGN.md §4 C08"),
+ "C09": ("E1+event hook", "exploration",
+   "Enumeration of the registry of guard-taking entry points x map states x key arguments; the event hook must never see the foreign collector at a guarded load or retirement; a panicking call must leave the map unchanged and usable.",
+   "The registry is maintained by hand; a source scan reports unregistered guard-taking public functions in the evidence notes.",
+   "enumerative testing over an entry-point registry with a hook-based oracle", "DESIGN.md §4 C09"),
+ "C10": ("E2+site events", "exploration",
+   "Scheduled multi-thread resizes judged from the site-event stream (each bin once, one publication, no overlap, exact doubling), post-state checks incl. a further growth, sequential growth oracle, exhaustive resize-stamp arithmetic for the 31 table lengths.",
+   "As C01; tables up to 4096 bins concurrently.",
+   "controlled-schedule testing with an event-stream invariant; exhaustive arithmetic table", "DESIGN.md §4 C10"),
+ "C11": ("E2", "exploration",
+   "Exact deadlock / lost-wake-up detection (nobody enabled while somebody unfinished) and a per-operation step budget over all explored schedules of three program families.",
+   "Bounded liveness on small programs: not a statement about all fair schedules. As C01.",
+   "controlled-schedule testing with exact deadlock detection", "DESIGN.md §4 C11"),
+ "C12": ("E2+probes", "fault_enumeration",
+   "At every yield point of every writer (exhaustive within each executed schedule) all threads are frozen and every read operation runs alone: it must finish within a step bound, never reach the before-lock / park / spin hook, and return something the pending writes allow.",
+   "The step bound 20000 separates legitimate reads from a reader that waits. As C01.",
+   "suspension-point enumeration with isolated reader probes", "DESIGN.md §4 C12"),
+ "C13": ("E2+E3", "exploration",
+   "retain / retain_force racing writers; rejected pairs become conditional / forced removals inside the linearizability search; sequential agreement with BTreeMap::retain.",
+   "As C01; predicates are pure.",
+   "controlled-schedule testing with a linearizability oracle extended by conditional removals", "DESIGN.md §4 C13"),
+ "C14": ("E1+inspector", "exploration",
+   "Exhaustive capacity/reserve sweep over an enumerable range plus generated sequences with a table-length policy predicate after every operation.",
+   "Capacities above 2^21 not exercised.",
+   "enumeration + property-based testing with a table-length policy oracle", "DESIGN.md §4 C14"),
+ "C15": ("E2+E5", "exploration",
+   "Vector-clock happens-before audit of every key/value hand-over that occurs in the explored executions, from the orderings the code passes to its atomics and its bin locks.",
+   "Sequentially consistent executions only: audits synchronisation on executed reads-from pairs, does not generate weak-memory behaviours; seize fences not modelled.",
+   "controlled-schedule testing with a vector-clock happens-before monitor", "DESIGN.md §4 C15"),
+ "C16": ("E6", "exploration",
+   "Programs generated from the registry of borrow-returning entry points x misuse kinds, compiled with cargo check; negatives must fail with a borrow/lifetime code on their line, positive twins must compile.",
+   "rustc's borrow checker is the oracle; registry maintained by hand.",
+   "generated negative/positive compile tests (differential on rustc diagnostics)", "DESIGN.md §4 C16"),
+ "C17": ("E6", "exploration",
+   "Programs generated from the registry of inserting entry points x three non-thread-safe type shapes x key/value position; negatives must be rejected naming Send/Sync, positives compile.",
+   "rustc's trait solver is the oracle; registry maintained by hand.",
+   "generated negative/positive compile tests (differential on rustc diagnostics)", "DESIGN.md §4 C17"),
+ "C18": ("E1", "fault_enumeration",
+   "Panic injected at every callback index of compute_if_present / retain / retain_force / iterator loops over generated prefixes; aftermath checked with model, inspector (no lock held) and cross-thread writes.",
+   "The faulting operation is deterministic given the prefix.",
+   "fault injection at every callback index over generated histories", "DESIGN.md §4 C18"),
+ "C19": ("E7", "exploration",
+   "Grammar-generated JSON documents (repetitions, ill-typed, damaged) and item multisets on 1-8 thread pools; no panic, round trip equality, sequential key set.",
+   "serde_json only; rayon scheduling sampled, not controlled.",
+   "grammar-based property testing with round-trip and differential oracles", "DESIGN.md §4 C19"),
 }
 PLANNED = {}
 ALL = ["C%02d" % i for i in range(1, 20)]
@@ -47,7 +119,13 @@ def main():
             "add_only": True,
         },
         "engines": [
-            {"name": "E1-seq", "path": "harness/src/seq.rs", "serves_properties": ["C02"], "kind_free_text": "sequential model-based engine (proptest strategies, BTreeMap reference, inspector oracles)"},
+            {"name": "E1", "path": "harness/src/seq.rs", "serves_properties": ["C02", "C03", "C04", "C05", "C06", "C10", "C13", "C14", "C18"], "kind_free_text": "sequential model-based engine (proptest strategies, BTreeMap reference, inspector oracles, drop ledger, canaries, fault injection)"},
+            {"name": "E2", "path": "harness/src/sched.rs", "serves_properties": ["C01", "C03", "C04", "C05", "C07", "C08", "C10", "C11", "C12", "C13", "C15"], "kind_free_text": "serialising scheduler over flurry's cfg-gated hooks: real threads, one token, bounded-preemption enumeration, random tapes, isolated-reader probes"},
+            {"name": "E3", "path": "harness/src/lin.rs", "serves_properties": ["C01", "C08", "C13"], "kind_free_text": "per-key Wing-Gong linearizability checker"},
+            {"name": "E4", "path": "harness/src/alloc.rs", "serves_properties": ["C03"], "kind_free_text": "quarantine/poison global allocator + canaries + retire-time reachability"},
+            {"name": "E5", "path": "harness/src/hb.rs", "serves_properties": ["C15"], "kind_free_text": "vector-clock happens-before monitor over the hook stream"},
+            {"name": "E6", "path": "harness/src/checks/typecheck.rs", "serves_properties": ["C16", "C17"], "kind_free_text": "program generator + cargo check diagnostics"},
+            {"name": "E7", "path": "harness/src/checks/bulk.rs", "serves_properties": ["C19"], "kind_free_text": "serde/rayon generators"},
         ],
         "checks": checks,
         "not_applicable": na,
